@@ -29,8 +29,29 @@ func compileCapturing(c *ProgCase, src string) (prog *vm.VerifProgram, err error
 	return
 }
 
+// compileCapturingAST: the same from the desugared tree (capacity classes; see runBackendsAST).
+func compileCapturingAST(c *ProgCase, core *m.Expr) (prog *vm.VerifProgram, err error) {
+	en := run.NewEngine(run.VMSwitch, c.Extra)
+	en.E.UseCompiler(func(expr ast.Expr, env *val.Env) compiler.Closure {
+		pr := vm.VerifCompile(expr, env)
+		prog = &pr
+		return vm.Compile(expr, env)
+	})
+	if p := run.Guard(func() { en.E.CompileExpr(run.ToAst(core), run.TypeEnv(c.Env)) }); p != nil {
+		err = fmt.Errorf("%s", p.Text)
+	}
+	return
+}
+
 func verifyCase(c *ProgCase, r *CaseRun) *Outcome {
-	prog, err, p := compileCapturing(c, r.Src)
+	var prog *vm.VerifProgram
+	var err error
+	var p *run.Panic
+	if r.Core.Size() > 3*astModeFrom {
+		prog, err = compileCapturingAST(c, r.Core)
+	} else {
+		prog, err, p = compileCapturing(c, r.Src)
+	}
 	if p != nil {
 		return bad("Compile panicked: %s\n src: %s", p.Text, clip(r.Src))
 	}
